@@ -411,6 +411,9 @@ func nestStore(cur Term, idx []Term, v Term) Term {
 }
 
 func (x *Exec) store(st *State, p *Ptr, v Value) {
+	if (p.Kind == pElem || p.Kind == pArr) && x.views[p.Obj.S] {
+		panic(unsupported{"UNSUPPORTED store through a slice of an array embedded in another object in " + x.funcName()})
+	}
 	leaves := flatten(p.Sub)
 	if len(leaves) != len(v.L) {
 		panic(fmt.Sprintf("store: leaf mismatch %v (%d) vs value %v (%d)", p.Sub, len(leaves), v.T, len(v.L)))
